@@ -56,6 +56,12 @@ func genC19(t *core.Tape, tier string) *Scenario {
 			p.RespMsgs = append(p.RespMsgs, smallPayload(t))
 		}
 		stdPrograms(t, p)
+		if p.Kind == KUnary && h.NIntercept > 0 && t.Bool(1, 4, "mirror") {
+			// one of the handler's interceptors mirrors traffic: it passes the
+			// request object to a shadow client before the call proceeds
+			p.MirrorBy = fmt.Sprintf("i%d", t.Choose(h.NIntercept, "mirror.by"))
+			sc.Notes["request_mirrored_by_interceptor"]++
+		}
 		if t.Bool(3, 5, "panics") {
 			p.HPanic = &PanicPlan{Kind: t.Choose(10, "panic.kind"), Text: "boom " + string(t.Bytes(3, 1, "ptext"))}
 			at := t.Choose(len(p.HProg)+1, "panic.at")
